@@ -89,7 +89,7 @@ TEXTS = {
     "C12": _t("Recording rules on eval_one (reset first, row 0, action before step, positions 1 and 4 of the step result, info key agreement with the "
               "env) and evaluate (fresh env per task, tuple order, stack+transpose, ordered pool API); RNG-ownership analysis across the task boundary: "
               "RNG-holding attributes are found by constructor, draws on them located, and any draw reachable from the worker through a bound method or "
-              "object shared by all tasks - or from a process-global RNG - is a violation; per-env child streams created in the factory are accepted, and solver-owned RNG state only when the after_reset hook of the same object replaces it per task from the env's own factory-seeded stream (chain H1-H4, every link checked); registered generators that draw hidden games from module-level state are reported (two documented families: open known findings); the action vector of an episode that can end early is NaN-initialised.",
+              "object shared by all tasks - or from a process-global RNG - is a violation; per-env child streams created in the factory are accepted, and solver-owned RNG state only when the after_reset hook of the same object replaces it per task from the env's own factory-seeded stream (chain H1-H4, every link checked); registered generators that draw hidden games from module-level state are reported (two documented families: open known findings); the action vector of an episode that can end early is NaN-initialised and the remaining gap rows carry the last gap; solve applies its default step limit to None only.",
               "DESIGN.md section 4, C12",
               "numeric equality of the matrices with a replay; statistical independence of the hidden games.",
               "static analysis: positional dataflow, RNG-ownership (escape/sharing) analysis over bound methods and partials"),
@@ -109,7 +109,7 @@ TEXTS = {
               "static analysis: dimension (index-space) type inference, writer/reader agreement"),
     "C15": _t("Cancellation-guarded division: a divisor that is (or is read back from a game into which the function stored) a difference of game values "
               "must be guarded by a tolerance test - relative to the scale of the game, non-strict, non-negative by construction and built from the rounding unit of the value type, not from an ad-hoc constant - not an exact-zero test; norm-info captured before mutation; inverse agreement (subtract singletons then "
-              "divide vs multiply then add, tuple positions); view contract of the bound getters the in-place division relies on; dispatch over both game kinds; the graph game keeps no state besides its matrix (GG).",
+              "divide vs multiply then add, tuple positions); view contract of the bound getters the in-place division relies on; dispatch over both game kinds; the graph game keeps no state besides its matrix, stored as a float copy (GG). Open known finding: the surplus is the residue of successive rounded subtractions (near-additive games).",
               "DESIGN.md section 4, C15",
               "the [0,1] range, superadditivity of the result, round-trip error bounds (numeric).",
               "static analysis: value-provenance classification of divisors and guards, inverse pairing"),
